@@ -342,6 +342,14 @@ impl LazyFreeStats {
 /// still in use by active tokens.
 #[derive(Debug)]
 pub struct VersionManager {
+    /// Shared state; tokens keep it alive so that releasing a token after the
+    /// manager itself was dropped never touches freed memory.
+    state: Arc<VersionState>,
+}
+
+/// State shared between a [`VersionManager`] and the tokens it issued.
+#[derive(Debug)]
+struct VersionState {
     /// Current concurrency level.
     concurrency_level: ConcurrencyLevel,
     /// Master version sequence counter.
@@ -361,6 +369,70 @@ pub struct VersionManager {
 impl VersionManager {
     /// Creates a new version manager with the specified concurrency level.
     pub fn new(concurrency_level: ConcurrencyLevel) -> Self {
+        Self {
+            state: Arc::new(VersionState::new(concurrency_level)),
+        }
+    }
+
+    /// Returns the current concurrency level.
+    #[inline]
+    pub fn concurrency_level(&self) -> ConcurrencyLevel {
+        self.state.concurrency_level()
+    }
+
+    /// Returns the current version sequence number.
+    #[inline]
+    pub fn current_version(&self) -> u64 {
+        self.state.current_version()
+    }
+
+    /// Returns the minimum version still in use.
+    #[inline]
+    pub fn min_version(&self) -> u64 {
+        self.state.min_version()
+    }
+
+    /// Returns the number of active reader tokens.
+    #[inline]
+    pub fn active_readers(&self) -> u64 {
+        self.state.active_readers()
+    }
+
+    /// Returns the number of active writer tokens.
+    #[inline]
+    pub fn active_writers(&self) -> u64 {
+        self.state.active_writers()
+    }
+
+    /// Acquires a new reader token.
+    pub fn acquire_reader_token(&self) -> Result<ReaderToken> {
+        VersionState::acquire_reader_token(&self.state)
+    }
+
+    /// Acquires a new writer token.
+    pub fn acquire_writer_token(&self) -> Result<WriterToken> {
+        VersionState::acquire_writer_token(&self.state)
+    }
+
+    /// Returns version manager statistics.
+    pub fn stats(&self) -> Result<VersionManagerStats> {
+        self.state.stats()
+    }
+
+    /// Clears all statistics.
+    pub fn clear_stats(&self) -> Result<()> {
+        self.state.clear_stats()
+    }
+
+    /// Validates that a token version is still valid.
+    pub fn validate_token_version(&self, token_version: u64) -> bool {
+        self.state.validate_token_version(token_version)
+    }
+}
+
+impl VersionState {
+    /// Creates the shared state with the specified concurrency level.
+    fn new(concurrency_level: ConcurrencyLevel) -> Self {
         Self {
             concurrency_level,
             current_version: AtomicU64::new(1), // Start at 1 to avoid zero-version issues
@@ -406,7 +478,7 @@ impl VersionManager {
     ///
     /// This method implements the token acquisition protocol, assigning a version
     /// sequence number and updating the active token count.
-    pub fn acquire_reader_token(&self) -> Result<ReaderToken> {
+    pub fn acquire_reader_token(self: &Arc<Self>) -> Result<ReaderToken> {
         // Check if readers are allowed at this concurrency level
         if self.concurrency_level == ConcurrencyLevel::NoWriteReadOnly {
             // Read-only level allows unlimited readers without version tracking
@@ -448,7 +520,7 @@ impl VersionManager {
             thread::current().id(),
             self.concurrency_level,
             Arc::new(TokenReleaseCallback {
-                version_manager: self as *const Self,
+                version_manager: Arc::clone(self),
                 token_type: TokenType::Reader,
             }),
         ))
@@ -458,7 +530,7 @@ impl VersionManager {
     ///
     /// This method implements writer token acquisition with proper exclusivity
     /// checking based on the concurrency level.
-    pub fn acquire_writer_token(&self) -> Result<WriterToken> {
+    pub fn acquire_writer_token(self: &Arc<Self>) -> Result<WriterToken> {
         // Check if writers are allowed at this concurrency level
         if self.concurrency_level == ConcurrencyLevel::NoWriteReadOnly {
             return Err(ZiporaError::invalid_operation(
@@ -510,7 +582,7 @@ impl VersionManager {
             thread::current().id(),
             self.concurrency_level,
             Arc::new(TokenReleaseCallback {
-                version_manager: self as *const Self,
+                version_manager: Arc::clone(self),
                 token_type: TokenType::Writer,
             }),
         ))
@@ -646,14 +718,14 @@ enum TokenType {
 
 /// Callback structure for token release.
 struct TokenReleaseCallback {
-    version_manager: *const VersionManager,
+    version_manager: Arc<VersionState>,
     token_type: TokenType,
 }
 
 impl std::fmt::Debug for TokenReleaseCallback {
     fn fmt(&self, f: &mut std::fmt::Formatter<'_>) -> std::fmt::Result {
         f.debug_struct("TokenReleaseCallback")
-            .field("version_manager", &(self.version_manager as usize))
+            .field("version_manager", &(Arc::as_ptr(&self.version_manager) as usize))
             .field("token_type", &self.token_type)
             .finish()
     }
@@ -661,31 +733,16 @@ impl std::fmt::Debug for TokenReleaseCallback {
 
 impl TokenReleaseCallback {
     fn release(&self, token_version: u64) {
-        unsafe {
-            let manager = &*self.version_manager;
-            match self.token_type {
-                TokenType::Reader => manager.release_reader_token(token_version),
-                TokenType::Writer => manager.release_writer_token(token_version),
-            }
+        let manager = &*self.version_manager;
+        match self.token_type {
+            TokenType::Reader => manager.release_reader_token(token_version),
+            TokenType::Writer => manager.release_writer_token(token_version),
         }
     }
 }
 
-// SAFETY: TokenReleaseCallback is Send because:
-// 1. `version_manager: *const VersionManager` - Raw pointer to a VersionManager.
-//    The VersionManager is expected to outlive all callbacks (managed by Arc).
-// 2. `token_type: TokenType` - Simple enum, trivially Send.
-//
-// INVARIANT: The VersionManager must remain valid for the lifetime of all callbacks.
-// This is enforced by the Arc<VersionManager> ownership in the token creation path.
-unsafe impl Send for TokenReleaseCallback {}
-
-// SAFETY: TokenReleaseCallback is Sync because:
-// 1. Both fields are read-only after construction.
-// 2. `release()` calls thread-safe methods on VersionManager (which uses atomics).
-// 3. The VersionManager's release_reader_token/release_writer_token are atomic.
-// Sharing &TokenReleaseCallback for concurrent reads is safe.
-unsafe impl Sync for TokenReleaseCallback {}
+// TokenReleaseCallback is Send + Sync automatically: it owns an Arc of the shared
+// (atomic / mutex protected) state, so a token can outlive its VersionManager.
 
 /// Reader token for safe concurrent read access.
 ///
